@@ -28,6 +28,11 @@ func (n *RaftNode) CreateBackup() error {
 	n.Lock()
 	defer n.Unlock()
 
+	// An insertion updates the balloon before it writes the store. Wait for it,
+	// so that the recorded version is the version of what the backup contains.
+	n.applyMu.RLock()
+	defer n.applyMu.RUnlock()
+
 	v := n.balloon.Version()
 	metadata := fmt.Sprintf("%d", v-1)
 	err := n.db.Backup(metadata)
